@@ -330,6 +330,25 @@ def run_case(spec):
                     sigs.add((dsn, 'singular_rejected', name))
                 except Exception as e:
                     viol.append(V(name + '.fit', 'singular_prior_wrong_exception', '%s raised %s for a singular prior' % (name, type(e).__name__), ['singular']))
+            # the same singular matrix as float32 (its eigenvalue noise is float32-sized): still a valid PSD init for MMC, and the
+            # learners that need a strictly PD prior still reject it because it is NOT DEFINITE (not because it is "not PSD")
+            Sing32 = Sing.astype(np.float32)
+            for name in ('ITML', 'LSML'):
+                evals += 1
+                try:
+                    zoo.fit(name, ds, prior=Sing32)
+                    viol.append(V(name + '.fit', 'singular_prior_accepted', '%s accepted a singular float32 prior' % name, ['singular', 'float32']))
+                except NonPSDError:
+                    viol.append(V(name + '.fit', 'singular_prior_wrong_exception', '%s: a singular (PSD) float32 prior was reported as not PSD' % name,
+                                  ['singular', 'float32']))
+                except ValueError:
+                    sigs.add((dsn, 'singular_float32_rejected', name))
+            evals += 1
+            try:
+                zoo.fit('MMC', ds, init=Sing32, max_iter=3)
+                sigs.add((dsn, 'singular_float32_accepted', 'MMC'))
+            except Exception as e:
+                viol.append(V('MMC.fit', 'singular_init_rejected', 'MMC rejected a singular PSD float32 init (%s)' % type(e).__name__, ['singular', 'float32']))
             evals += 1
             try:
                 zoo.fit('MMC', ds, init=Sing, max_iter=3)
